@@ -1309,10 +1309,14 @@ fn main() {
         if thorough { 500 } else { 420 },
     );
     let mut cx = Ctx { st: Stats::new(), cw, coq_budget: usize::MAX };
+    let t0 = std::time::Instant::now();
+    let lap = |what: &str| eprintln!("[c14] {:>7.2}s {}", t0.elapsed().as_secs_f64(), what);
 
     // 1. bounded-exhaustive over the 11-value boundary domain
     exhaustive(&mut cx, &mut rng, 1, true, 1);
+    lap("depth1 done");
     exhaustive(&mut cx, &mut rng, 2, true, if thorough { 6 } else { 28 });
+    lap("depth2 done");
     if thorough {
         exhaustive(&mut cx, &mut rng, 3, false, 60);
     } else {
@@ -1337,10 +1341,12 @@ fn main() {
         }
     }
 
+    lap("exhaustive+sampled done");
     // 2. random longer sequences
     let m = if thorough { 8 } else { 1 };
     let pool32: Vec<u32> = vec![0, 1, 63, 64, 511, 512, 513, 1023, 1024, 1535, 1536, 65535, 65536, 70000, 1 << 20, (1 << 31) - 1, 1 << 31, u32::MAX - 512, u32::MAX - 511, u32::MAX - 1, u32::MAX];
     random_stream::<u32>(&mut cx, &mut rng, 700 * m, 40, 70 * m, &pool32, 70_000, false);
+    lap("u32 random done");
     let pool16: Vec<u32> = vec![0, 1, 63, 64, 511, 512, 513, 1023, 1024, 32767, 32768, 65023, 65024, 65534, 65535];
     random_stream::<u16>(&mut cx, &mut rng, 500 * m, 40, 50 * m, &pool16, 3000, false);
     let pool8: Vec<u32> = vec![0, 1, 63, 64, 65, 127, 128, 254, 255];
@@ -1352,9 +1358,11 @@ fn main() {
     let poolt: Vec<u32> = vec![5, 6, 511, 512, 513, 599, 600, 1000, 1001, 1023, 1024, 1535, 1536, 1599, 1600];
     random_stream::<TwoIv>(&mut cx, &mut rng, 600 * m, 40, 0, &poolt, 1600, true);
 
+    lap("random streams done");
     // 3. RangeSet
     rangeset_stream(&mut cx, &mut rng, if thorough { 200_000 } else { 30_000 }, if thorough { 6000 } else { 1500 });
 
+    lap("rangeset done");
     let shards = cx.cw.finish();
     cx.st.v.insert("shards".into(), shards.into());
     cx.st.v.insert("model_cases".into(), cx.cw.len().into());
